@@ -51,8 +51,10 @@ def c15a(ctx):
     for m in ('imap', 'starmap'):
         fn = ctx.fn('%s:ThreadPool.%s' % (A, m))
         calls = [x for x in fn.walk() if is_call(x, 'self.map_each')]
-        ok = bool(calls) and all(unparse(keyword(c, 'raise_exceptions', 1) or ast.Constant(value=None)).replace(' ', '') ==
-                                 'notuse_result_objects' for c in calls)
+        # closed forms: the mode may travel through a local (`raise_exceptions = not use_result_objects`)
+        want = lambda c: fn.ctext(ast.parse('not use_result_objects', mode='eval').body, at=fn.cfg.node_for(c))
+        ok = bool(calls) and all(fn.ctext(keyword(c, 'raise_exceptions', 1) or ast.Constant(value=None), at=fn.cfg.node_for(c)) == want(c) and
+                                 'use_result_objects' in want(c) for c in calls)
         ctx.check(ok, 'ThreadPool.%s:mode' % m, 'map_each(raise_exceptions=not use_result_objects)', fn)
 
 
@@ -233,7 +235,7 @@ USERS = [('mapproxy/cache/tile.py:TileCreator._query_sources', 'layers.append'),
 def c15e(ctx):
     for qn, sink in USERS:
         fn = ctx.fn(qn)
-        loops = [s for s in fn.walk() if isinstance(s, ast.For) and is_call(s.iter, 'imap')]
+        loops = [s for s in fn.walk() if isinstance(s, ast.For) and is_call(fn.canon.expr(s.iter), 'imap')]
         comps = [c for c in fn.walk() if isinstance(c, ast.ListComp) and len(c.generators) == 1 and is_call(c.generators[0].iter, 'imap')]
         ok = len(loops) == 1
         if not loops and len(comps) == 1 and sink.endswith('.append'):
@@ -292,7 +294,7 @@ def c15f(ctx):
     for qn, var in users:
         fn = ctx.fn(qn)
         g = fn.cfg
-        lps = [l for l in fn.walk_all() if isinstance(l, ast.For) and is_call(l.iter, 'imap') and const_value(keyword(l.iter, 'use_result_objects')) is True]
+        lps = [l for l in fn.walk_all() if isinstance(l, ast.For) and is_call(fn.canon.expr(l.iter), 'imap') and const_value(keyword(fn.canon.expr(l.iter), 'use_result_objects')) is True]
         if lps and isinstance(lps[0].target, ast.Name):
             var = lps[0].target.id
         isnone = lambda at: at.op == '==' and ('%s.exception' % var) in at.text and 'None' in at.text
@@ -336,7 +338,8 @@ def c15h(ctx):
         fn = ctx.fn(A + ':ThreadPool.' + m)
         g = fn.cfg
         single = g.find(lambda x: is_call(x, 'self._single_call'))
-        tasks = [c for x in fn.walk() if is_call(x, 'self.map_each') and x.args for c in [x.args[0]] if isinstance(c, (ast.ListComp, ast.GeneratorExp))]
+        # closed form of the task list handed to map_each (it may be built in a local first)
+        tasks = [c for x in fn.walk() if is_call(x, 'self.map_each') and x.args for c in [fn.canon.expr(x.args[0])] if isinstance(c, (ast.ListComp, ast.GeneratorExp))]
         if not single:
             ctx.ok('ThreadPool.%s:no-shortcut' % m, 'no single-call shortcut', fn)
             continue
